@@ -24,6 +24,10 @@ pub(crate) mod stubs {
     pub fn format_empty(_args: std::fmt::Arguments<'_>) -> String {
         String::new()
     }
+    /// `Result::unwrap`/`expect` failure: still a panic, but without formatting the error value.
+    pub fn unwrap_failed_plain(_msg: &str, _error: &dyn std::fmt::Debug) -> ! {
+        panic!("called `Result::unwrap()` on an `Err` value")
+    }
 }
 
 /// `harness! { #[kani::unwind(9)] fn name() { ... } }` expands to a `#[kani::proof]`
@@ -36,6 +40,7 @@ macro_rules! harness {
         #[kani::stub(tracing::Event::dispatch, crate::verif_kani::common::stubs::dispatch_nop)]
         #[kani::stub(tracing::level_filters::LevelFilter::current, crate::verif_kani::common::stubs::level_off)]
         #[kani::stub(alloc::fmt::format, crate::verif_kani::common::stubs::format_empty)]
+        #[kani::stub(core::result::unwrap_failed, crate::verif_kani::common::stubs::unwrap_failed_plain)]
         $(#[$m])*
         pub(crate) fn $name() $body
     };
